@@ -418,12 +418,127 @@ PROPS['C23'] = {
                     "only when the hook fired; each solve() call returns the next untimed answer, `No more.` at the end, or the timeout message (only when the hook fired)"],
 }
 
+P_RULE = ("cases are strings handed to the parser entry points parse_term, parse_linked_list, parse_complex, parse_function, parse_query, parse_subgoal, "
+          "generate_goal and parse_rule. Streams: `grammar` = text of random canonical terms / subgoals / bodies / rules rendered by the harness' own renderer "
+          "(atoms incl. blanks and non-ASCII letters, integers, floats, variables, `$_`, lists with tail variable, complex terms of arity 0-3, built-ins, "
+          "unification with function terms, not(...), conjunctions, disjunctions of conjunctions); `mutate` = 1-2 single-character deletions / insertions / "
+          "replacements (from the 22 syntax characters) of such text, sometimes through another entry point; `random` = random strings of length <= 13 over "
+          "the syntax characters plus a few letters and digits; `spellings` = documented non-printed spellings (quoted atoms with blanks, commas, brackets and "
+          "non-ASCII text, extra blanks, zero-arity goals and facts without parentheses, infix comparison and arithmetic); `strings` = ALL strings of length <= n "
+          "over the 12 symbols `a $ X 1 ( ) [ ] , blank = \\` through all 8 entry points; `goalstrings` = ALL strings of length <= n over `a ( ) , ; blank [ ] \" \\` "
+          "through generate_goal and as rule bodies. Compared with the model per case: ok + the complete parsed value (every count, flag and float bit) + the "
+          "text the implementation prints for it, or err, or panic. Non-trivial = at least 2 characters; distinct = distinct encoded case text.")
+
+
+def parse_runs(props, kinds):
+    runs = []
+    for kind, n, extra in kinds:
+        if isinstance(extra, int):
+            for i in range(extra):
+                runs.append({'suite': 'parse', 'args': ['--kind', kind, '--props', props, '--n', str(n), '--shard', '%d/%d' % (i, extra)]})
+        else:
+            runs.append({'suite': 'parse', 'args': ['--kind', kind, '--props', props, '--n', str(n)] + (extra or [])})
+    return runs
+
+
+PROPS['C18'] = {
+    'module': 'SuironVerif.Props.C18',
+    'theorems': ['Suiron.C18.term_parsers_never_panic', 'Suiron.C18.parse_term_never_panics', 'Suiron.C18.parse_arguments_never_panics',
+                 'Suiron.C18.parse_linked_list_never_panics', 'Suiron.C18.parse_complex_never_panics', 'Suiron.C18.parse_function_never_panics',
+                 'Suiron.C18.parse_query_never_panics', 'Suiron.C18.parse_subgoal_never_panics', 'Suiron.C18.tokenize_never_panics_partial'],
+    'oracles': ['C18'],
+    'suites': {
+        'quick': parse_runs('C18', [('grammar', 3000, None), ('mutate', 8000, None), ('mutate', 8000, None), ('random', 8000, None),
+                                    ('spellings', 1500, None), ('strings', 4, 2), ('goalstrings', 5, 2)]),
+        'thorough': parse_runs('C18', [('grammar', 50000, None)] + [('mutate', 200000, None) for i in range(5)] +
+                               [('random', 200000, None) for i in range(3)] + [('spellings', 20000, None), ('strings', 5, 6), ('goalstrings', 6, 6)]),
+    },
+    'exhaustive_in': {'quick': True, 'thorough': True},
+    'rule': P_RULE, 'design_ref': '5.18',
+    'assumptions': ["PARTIAL: proved for the term-level parsers, parse_query, parse_subgoal and the tokenizer (every index, slice, unwrap and panic! of the Rust code is an "
+                    "explicit panic branch of the model, shown unreachable for every input); the token grouping stage of generate_goal / parse_rule and the sufficiency "
+                    "of a fuel linear in the input length (termination) are not proved and are decided by the correspondence suite and the no-panic oracle",
+                    "oracle on the implementation: every call returns Ok or Err (catch_unwind per call; a watchdog turns a call that does not return within 6 s into an abort)",
+                    "float parsing (str::parse::<f64>) and char::is_alphabetic are parameters of the model; the driver supplies an exact decimal-to-double conversion and the "
+                    "Unicode classification for Latin, Greek and Cyrillic letters; the generators stay inside that alphabet"],
+}
+PROPS['C19'] = {
+    'module': 'SuironVerif.Props.C19',
+    'theorems': ['Suiron.C19.show_and_groups_or', 'Suiron.C19.show_and_groups_and', 'Suiron.C19.show_or_keeps_and', 'Suiron.C19.show_or_groups_or',
+                 'Suiron.C19.show_fact', 'Suiron.C19.show_rule', 'Suiron.C19.show_unify'],
+    'oracles': ['C19'],
+    'suites': {
+        'quick': parse_runs('C19', [('grammar', 6000, None), ('grammar', 6000, None), ('spellings', 2500, None), ('mutate', 4000, None)]),
+        'thorough': parse_runs('C19', [('grammar', 200000, None) for i in range(6)] + [('spellings', 50000, None), ('mutate', 100000, None)]),
+    },
+    'rule': P_RULE, 'design_ref': '5.19',
+    'assumptions': ["PARTIAL: the printer lemmas (grouping parentheses, rule and unification layout) are proved; the round trip parse(show v) = v is proved only for token-level "
+                    "terms (through the C20 lemmas) and is otherwise decided by the grammar stream: text rendered by the harness must parse to the denoted value, print back as "
+                    "the same text and re-parse to the same value, and the model's parser and printer must agree with the implementation's on every case",
+                    "canonical text = what the printer writes: comparisons in their named form (less_than(a, b)), zero-arity terms as f(), conjunctions inside disjunctions "
+                    "without parentheses; floats are taken from a set whose shortest decimal form is exact",
+                    "known finding F2 (open): parenthesised groups nested inside parenthesised groups are mis-grouped by group_tokens()"],
+}
+PROPS['C20'] = {
+    'module': 'SuironVerif.Props.C20',
+    'theorems': ['Suiron.C20.alone', 'Suiron.C20.as_argument', 'Suiron.C20.as_complex_argument', 'Suiron.C20.as_list_element', 'Suiron.C20.as_infix_operand',
+                 'Suiron.C20.as_query_argument', 'Suiron.C20.C20_token'],
+    'oracles': ['C20'],
+    'suites': {
+        'quick': parse_runs('C20', [('contexts', 6000, None), ('contexts', 6000, None), ('mutate', 3000, None)]),
+        'thorough': parse_runs('C20', [('contexts', 200000, None) for i in range(6)] + [('mutate', 100000, None)]),
+    },
+    'rule': "contexts stream: a term text (random canonical term of depth <= 2, or one of 60 special spellings: signed numbers, digit strings with blanks inside, signs "
+            "alone, `1e5`, `3.`, `.5`, i64 extremes, odd variable names, escaped commas, quoted numbers, arithmetic infix) is parsed alone, as `f(T)`, as `[T]`, as `T = x` "
+            "and as the query `q(T)`; compared with the model: the five results (ids erased). " + P_RULE,
+    'design_ref': '5.20',
+    'assumptions': ["PARTIAL: proved for token texts (no blanks, none of `[ ] ( ) , \" \\ |`): all five contexts give parse_term's result; structured texts are decided by "
+                    "the contexts stream",
+                    "oracle on the implementation: the five results are equal whenever the text is a single term (no top-level comma / bar)",
+                    "KNOWN FINDING F3 (open): a text with a top-level arithmetic infix is a function term alone, in a list and next to `=`, but an atom or a variable as an argument"],
+}
+PROPS['C21'] = {
+    'module': 'SuironVerif.Props.C21',
+    'theorems': ['Suiron.C21.load_is_parse_each', 'Suiron.C21.parseAll_spec', 'Suiron.C21.load_or_reject', 'Suiron.C21.separate_rules_exact', 'Suiron.C21.join_lines_exact',
+                 'Suiron.C21.bad_line_rejected', 'Suiron.C21.layout_of_rule', 'Suiron.C21.blank_line_ignored', 'Suiron.C21.C21'],
+    'oracles': ['C21'],
+    'suites': {
+        'quick': parse_runs('C21', [('reader', 2500, None), ('reader', 2500, None), ('reader', 2500, None)]),
+        'thorough': parse_runs('C21', [('reader', 60000, None) for i in range(8)]),
+    },
+    'rule': "reader stream: files of 1-5 random canonical rules laid out with line breaks after `:-`, `,`, `;`, `=` outside brackets and quotes (the blank after the separator "
+            "becomes the line break), indentation, blank lines between and inside rules, `#` / `%` / `//` comment lines and trailing comments; each file is loaded with "
+            "load_kb_from_file and read with read_facts_and_rules. Compared with the model: the list of separated rule texts and the loaded knowledge base (rules grouped "
+            "by predicate, complete structure). Non-trivial/distinct = distinct file text.",
+    'design_ref': '5.21',
+    'assumptions': ["the rule parser is a parameter of the reader theorems; comment stripping is characterised by the correspondence suite only (the theorem C21 takes the "
+                    "stripped lines as given)",
+                    "a rule text that begins with a digit right after another rule is outside the theorem (`OneRule` demands a non-digit first character: a period in front of a "
+                    "digit is read as a decimal point)",
+                    "oracle on the implementation: a file whose rules all parse on their own loads without error and format_kb() of the loaded knowledge base equals that of "
+                    "the knowledge base built by parse_rule on each rule text"],
+}
+
 NOT_APPLICABLE = {
     'C24': 'Undefined behaviour (aliasing of raw-pointer writes, data races on static mut) is a property of pointers, borrows and threads, '
            'which a pure functional Lean model erases by construction; no executable Lean model can express it (DESIGN.md 5.24).',
 }
 
 LEVEL_TEXT = {
+    'C18': 'PARTIAL proof: every index, slice, unwrap and panic! of the parser is an explicit panic outcome of the Lean model; proved unreachable, for every input string, '
+           'every fuel and every instance of the std parameters, for parse_term / parse_arguments / parse_linked_list / parse_complex / parse_function / parse_query / '
+           'parse_subgoal and for the tokenizer. The token grouping stage of generate_goal / parse_rule and termination within a fuel linear in the input are not proved; '
+           'they are decided by the correspondence suite (random, mutated, documented-spelling and ALL short strings through all eight entry points) and the no-panic oracle.',
+    'C19': 'PARTIAL proof: the printer model is proved to parenthesise exactly the nested operators the parser would regroup and to lay out rules and unifications as '
+           'documented; parse(show v) = v is proved for token-level terms. The round trip for structured terms, goals and rules is decided by the grammar stream on the '
+           'implementation, with the model parser and printer compared on every case. One open known finding (F2: nested parenthesised groups).',
+    'C20': 'PARTIAL proof: for every token text (no blanks, none of [ ] ( ) , " \\ |: atoms, signed numbers, variables, $_) all five contexts - alone, argument, list element, '
+           'infix operand, query argument - are proved to hand the text to the same make_term with the same classification flags, so they yield the same term, for every '
+           'fuel. Structured texts are decided by the contexts stream. One open known finding (F3: arithmetic infix as an argument).',
+    'C21': 'Proved in Lean on the reader model, with the rule parser as a parameter: a file is rejected or its knowledge base is exactly parse_rule of each separated rule text, '
+           'in order; the separation returns exactly the rule texts of a concatenation (decimal points, periods inside brackets and quotes never end a rule); the joined text '
+           'is the stripped non-empty lines with one blank after every unfinished line; blank and comment-only lines contribute nothing; a line ending in the middle of a word '
+           'rejects the file. Comment stripping itself is tied to the code by the reader stream only.',
     'C22': 'Proved in Lean (frame lemma over the whole engine, by induction on fuel): text written by earlier queries is never read, and once a query has been built the '
            'globals the engine reads (variable counter, stop flag) depend on the query alone; hence the first request returns the same answer, successor node, counter and '
            'flag in any two histories. Whole runs and histories with hook-forced and real timeouts are decided by the timer suite. One open known finding (F1).',
